@@ -3,11 +3,9 @@ Require Import D42.Prelude D42.Value D42.Regex D42.Schema.
 
 Definition str_schema (s : pystr) : schema := SStr (Some s) None None None None None None.
 
-(* DictSchema.__call__ on {key: schema}: a `...` key with a schema value is rejected with
-   DeclarationError ("Inappropriate type of value"); later duplicates cannot occur in a dict *)
-Definition dict_of_natives (ents : list (key * schema)) : result schema :=
-  if existsb (fun e => is_kell (fst e)) ents then Err DeclErr
-  else Ok (SDict (Some (map (fun e => (fst e, Some (snd e), false)) ents))).
+(* DictSchema.__call__ on {key: schema} (no `...` key can reach it, see below) *)
+Definition dict_of_natives (ents : list (key * schema)) : schema :=
+  SDict (Some (map (fun e => (fst e, Some (snd e), false)) ents)).
 
 Fixpoint from_native (v : value) {struct v} : result schema :=
   match v with
@@ -20,8 +18,10 @@ Fixpoint from_native (v : value) {struct v} : result schema :=
       do es <- rsequence (map (fun x => from_native x) l);
       Ok (SList (Some (map Some es)) None None None None)
   | VDict d =>
+      (* a `...` key is refused before any member is converted *)
+      if existsb (fun kv => is_kell (fst kv)) d then Raise ValueError else
       do ents <- rsequence (map (fun kv => rmap (fun s => (fst kv, s)) (from_native (snd kv))) d);
-      dict_of_natives ents
+      Ok (dict_of_natives ents)
   | VBytes b => Ok (SBytes (Some b))
   | VUuid n => if uuid_is_v4 n then Ok (SUuid (Some n)) else Raise ValueError
   | VDatetime a us => Ok (SDatetime (Some (a, us)))
